@@ -350,6 +350,11 @@ def build_cases(ctx, packets, specs):
                               meta=dict(cat='config/%s%s' % (cfg['name'], '' if n else '/init-only'), base=n or 'init-only', spec=g, sealed_intact=True,
                                         pristine=bool(n) and cfg['wf'], changed=None, expect_drop=False, forged=None, cfg=cfg, ostate=ostate,
                                         no_oracle=not cfg['wf'] or not n)))
+            # the same packet when the server's clock is 1000 s further on: stale under ANY configuration (the window is
+            # the documented +-180 s whatever the options say); decided by the model comparison
+            cases.append(dict(id='c%d' % len(cases), st='S0', now=NOW + 1000 * 10**9, kind=g['kind'], pkt=pkt.hex(), cfg=gocfg,
+                              meta=dict(cat='config/%s/stale' % cfg['name'], base=n or 'init-only', spec=g, sealed_intact=True,
+                                        pristine=False, changed=None, expect_drop=False, forged=None, cfg=cfg, ostate=ostate, no_oracle=True)))
     # 5. parser quirks the model reproduces (Go slice capacity, map overwrite): rebuilt extension blocks
     for (kind, br), name in sorted(oks.items()):
         if kind != 'tls':
